@@ -374,8 +374,8 @@ def extract_vars(
     if keep_bounds:
         variables_and_coordinates = variables | set(dataset.coords.keys())
         variables = variables | {
-            dataset[var].attrs['bounds'] for var in variables_and_coordinates
-            if 'bounds' in dataset[var].attrs
+            get_bounds_name(dataset[var]) for var in variables_and_coordinates
+            if get_bounds_name(dataset[var]) is not None
         }
 
     drop_vars = list(set(dataset.data_vars.keys()) - variables)
@@ -807,6 +807,21 @@ def deprecated(message: str, category: type[Warning] = DeprecationWarning) -> Ca
 
 def splice_tuple(t: tuple, index: int, values: Sequence) -> tuple:
     return t[:index] + tuple(values) + t[index:][1:]
+
+
+def get_bounds_name(variable: xarray.DataArray | xarray.Variable) -> Hashable | None:
+    """
+    The name of the bounds variable of a coordinate variable, or None.
+
+    The ``bounds`` attribute is normally found in the attributes of the variable.
+    When a dataset is opened with ``decode_coords='all'``
+    xarray moves this attribute to the encoding of the variable
+    and makes the bounds variable a coordinate.
+    """
+    try:
+        return variable.attrs['bounds']
+    except KeyError:
+        return variable.encoding.get('bounds', None)
 
 
 def name_to_data_array(
